@@ -91,6 +91,23 @@ func c12Faults() []c12Fault {
 		f("intermediate-expired", func(s *world.Spec, _ *rand.Rand) {
 			s.Cert("inter").NotAfter = s.Now[0].Add(-time.Hour).Truncate(time.Second)
 		}),
+		// the root CARRIED in the quote is an expired issuance; the pool lists a longer-lived certificate of the same key and
+		// name (path validation only looks at the pool's): the carried root's expiry has to be judged at every level
+		f("carried-root-expired(reissued-root-in-pool)", func(s *world.Spec, _ *rand.Rand) {
+			r := *s.Cert("root")
+			r.Role, r.Serial = "poolroot", big.NewInt(3002)
+			s.Certs = append(s.Certs, &r)
+			s.Pool = []string{"poolroot"}
+			s.TcbResp.HdrRoles, s.QeResp.HdrRoles, s.PckCrlHdrRoles = []string{"signer", "poolroot"}, []string{"signer", "poolroot"}, []string{"inter", "poolroot"}
+			s.Cert("root").NotAfter = s.Now[0].Add(-time.Hour).Truncate(time.Second)
+		}),
+		f("carried-root-in-date(reissued-root-in-pool)", func(s *world.Spec, _ *rand.Rand) {
+			r := *s.Cert("root")
+			r.Role, r.Serial = "poolroot", big.NewInt(3002)
+			s.Certs = append(s.Certs, &r)
+			s.Pool = []string{"poolroot"}
+			s.TcbResp.HdrRoles, s.QeResp.HdrRoles, s.PckCrlHdrRoles = []string{"signer", "poolroot"}, []string{"signer", "poolroot"}, []string{"inter", "poolroot"}
+		}),
 		f("leaf-revoked", func(s *world.Spec, _ *rand.Rand) { s.PckCrl.Revoked = append(s.PckCrl.Revoked, s.Cert("leaf").Serial) }),
 		f("intermediate-revoked", func(s *world.Spec, _ *rand.Rand) {
 			s.RootCrls[0].Revoked = append(s.RootCrls[0].Revoked, s.Cert("inter").Serial)
@@ -346,7 +363,7 @@ func c12(r *hx.Run) {
 	// (b) population × four option combinations
 	for i := 0; i < worlds; i++ {
 		rng := c05CaseRng(r, 0x12, i)
-		f := faults[i%len(faults)]
+		f := faults[(i-i/4)%len(faults)] // every fault in turn (the honest slots i%4 == 3 do not consume a turn)
 		if i%4 == 3 {
 			f = faults[0]
 		}
@@ -426,5 +443,76 @@ func c12(r *hx.Run) {
 			c12Step(r, sh, w, o[0], o[1], pool, poolNil, hist, fmt.Sprintf("step:%d", k+1), nowTag, poolTag, "fault:"+w.Spec.Fault, "family:history")
 		}
 	}
-	r.Note("population", fmt.Sprintf("%d faults; %d worlds x 4 option combinations; %d histories of length 2-4; %d real-time histories", len(faults), worlds, histories, realtime))
+	cvPairHistories(r, 0x2212, "C12", map[bool]int{true: 1, false: 2}[r.Tier == "thorough"])
+	r.Note("population", fmt.Sprintf("%d faults; %d worlds x 4 option combinations; %d histories of length 2-4; %d real-time histories + systematic pair histories", len(faults), worlds, histories, realtime))
+}
+
+// cvPairHistories: systematic two- and three-call histories over HONEST worlds through one shared *verify.Options: every
+// ordered pair of option levels × {same world, another world with the same names and other keys} × trusted-roots transition
+// {own→own, own→nil(embedded), own→the other world's, the other world's→own}; a third call repeats the first call's settings.
+// Used by C02 (pool transitions), C05 (levels involving revocation), C11 (honest worlds, every level order) and C12 (all):
+// whatever an earlier call left in the options (collateral, CRLs, chain, extensions, pools, times) must not count.
+func cvPairHistories(r *hx.Run, family uint64, which string, stride int) {
+	now := time.Now()
+	idx := 0
+	for a := 0; a < 4; a++ {
+		for b := 0; b < 4; b++ {
+			for other := 0; other < 2; other++ {
+				for tr := 0; tr < 4; tr++ {
+					switch which {
+					case "C02":
+						if !(a == b && (a == 1 || a == 2)) && !(a == 2 && b == 1) {
+							continue
+						}
+					case "C05":
+						if tr != 0 || (a != 0 && a != 3 && b != 0 && b != 3) {
+							continue
+						}
+					case "C11":
+						if tr != 0 {
+							continue
+						}
+					}
+					idx++
+					if stride > 1 && idx%stride != 0 {
+						continue
+					}
+					rng := c05CaseRng(r, family, idx)
+					w1, w2 := world.Build(c12Wall(rng, now)), world.Build(c12Wall(rng, now))
+					own := func(w *world.World) []*x509.Certificate {
+						var out []*x509.Certificate
+						for _, role := range w.Spec.Pool {
+							out = append(out, w.Certs[role].Cert)
+						}
+						return out
+					}
+					second := w1
+					if other == 1 {
+						second = w2
+					}
+					type poolSel struct {
+						certs []*x509.Certificate
+						isNil bool
+						name  string
+					}
+					p1, p2 := poolSel{own(w1), false, "own"}, poolSel{own(second), false, "own"}
+					switch tr {
+					case 1:
+						p2 = poolSel{nil, true, "nil(embedded)"}
+					case 2:
+						p2 = poolSel{own(map[bool]*world.World{true: w1, false: w2}[other == 1]), false, "of-the-other-world"}
+					case 3:
+						p1 = poolSel{own(w2), false, "of-the-other-world"}
+					}
+					sh := &c12Shared{o: &verify.Options{}}
+					hist := fmt.Sprintf("history:pair:%s", which)
+					lv := func(i int) string { return fmt.Sprintf("gc%dcr%d", hx.B(c05Levels[i][0]), hx.B(c05Levels[i][1])) }
+					tags := []string{hist, "family:pair-history", "levels:" + lv(a) + ">" + lv(b), fmt.Sprintf("second-world:%s", map[int]string{0: "same", 1: "other"}[other]), "roots:" + p1.name + ">" + p2.name}
+					c12Step(r, sh, w1, c05Levels[a][0], c05Levels[a][1], p1.certs, p1.isNil, append(tags, "step:1")...)
+					c12Step(r, sh, second, c05Levels[b][0], c05Levels[b][1], p2.certs, p2.isNil, append(tags, "step:2")...)
+					c12Step(r, sh, w1, c05Levels[a][0], c05Levels[a][1], p1.certs, p1.isNil, append(tags, "step:3")...)
+				}
+			}
+		}
+	}
 }
